@@ -147,6 +147,13 @@ impl Prop for InputForms {
             if let Some(r) = synth_array(&aligned, &timed) {
                 cmp_on("&[&str; N]", &run("&[&str; N] on", r)?)?;
             }
+            // without time stamps the parsed-label form must agree with the textual forms too
+            // (alignment on: every label falls back to its model duration)
+            let untimed_on = run("&[String] untimed, alignment on", aligned.synthesize(lines.as_slice()))?;
+            let parsed_on = run("Vec<Label>, alignment on", aligned.synthesize(parse_lines(lines).map_err(|e| Failure::new("label-parse", e))?))?;
+            if let Some(i) = bits_equal(&parsed_on, &untimed_on) {
+                fail!("form-differs", "with alignment on and no time stamps, Vec<Label> gives a different waveform than &[String] (first difference at sample {}, lengths {} vs {}, speed {})", i, parsed_on.len(), untimed_on.len(), c.speed);
+            }
             let mut tb = timed.clone();
             for p in pos.iter().rev() {
                 tb.insert((*p).min(tb.len()), String::new());
